@@ -30,7 +30,8 @@ CONSTANTS NI,       \* ids 1..NI
           MaxK,
           NScopes,
           MaxOps,
-          BoundaryRule  \* "le" (the code: invalidate when d(q, new) <= worst cached) or "lt" (model twin)
+          BoundaryRule, \* "le" (the code: invalidate when d(q, new) <= worst cached) or "lt" (model twin)
+          Core          \* TRUE: exhaustive-suffix mode - two documents pre-inserted, only Insert / Delete / Search steps
 
 Ids == 1..NI
 Pts == 0..NP
@@ -114,20 +115,32 @@ Search(s, q, k) ==
      /\ Log(Rec("search", [s |-> s, q |-> q, k |-> k]))
      /\ UNCHANGED <<canon, hot>>
 
-Init == /\ canon = [i \in Ids |-> [p |-> FALSE, x |-> 0]] /\ hot = {} /\ qc = <<>>
-        /\ hist = <<>> /\ done = FALSE /\ fresh = TRUE
+Init == IF Core
+        THEN \* documents 1 @ 0 and 2 @ 1 already written (and logged, so the replay performs the same writes)
+             /\ canon = [i \in Ids |-> IF i = 1 THEN [p |-> TRUE, x |-> 0] ELSE IF i = 2 THEN [p |-> TRUE, x |-> 1] ELSE [p |-> FALSE, x |-> 0]]
+             /\ hot = {1, 2} /\ qc = <<>>
+             /\ hist = << Rec("insert", [id |-> 1, x |-> 0]), Rec("insert", [id |-> 2, x |-> 1]) >>
+             /\ done = FALSE /\ fresh = TRUE
+        ELSE /\ canon = [i \in Ids |-> [p |-> FALSE, x |-> 0]] /\ hot = {} /\ qc = <<>>
+             /\ hist = <<>> /\ done = FALSE /\ fresh = TRUE
 
 Step ==
   /\ Len(hist) < MaxOps /\ done' = FALSE
   /\ \/ \E id \in Ids, x \in Pts : Insert(id, x) /\ UNCHANGED fresh
      \/ \E id \in Ids : Delete(id) /\ UNCHANGED fresh
-     \/ \E id \in Ids, x \in Pts : BulkLoad(id, x) /\ UNCHANGED fresh
-     \/ \E id \in Ids : UpdateMeta(id) /\ UNCHANGED fresh
-     \/ Flush /\ UNCHANGED fresh
+     \/ ~Core /\ \E id \in Ids, x \in Pts : BulkLoad(id, x) /\ UNCHANGED fresh
+     \/ ~Core /\ \E id \in Ids : UpdateMeta(id) /\ UNCHANGED fresh
+     \/ ~Core /\ Flush /\ UNCHANGED fresh
      \/ \E s \in Scopes, q \in Pts, k \in 1..MaxK : Search(s, q, k)
      \* repeat a search whose key the cache currently holds (same or smaller k: a model hit; larger k: must miss),
      \* in the same and in the other scope - listed separately so that simulation reaches cache hits often
-     \/ \E j \in DOMAIN qc, k \in 1..MaxK, s \in Scopes : Search(s, qc[j].q, k)
+     \/ ~Core /\ \E j \in DOMAIN qc, k \in 1..MaxK, s \in Scopes : Search(s, qc[j].q, k)
+     \* writes aimed at documents that sit in a cached result (special cases of Insert / Delete / BulkLoad, listed
+     \* separately for the same reason): overwrite to any position, delete, bulk load
+     \/ ~Core /\ \E j \in DOMAIN qc, r \in 1..MaxK, x \in Pts :
+          r <= Len(qc[j].res) /\ Insert(qc[j].res[r].id, x) /\ UNCHANGED fresh
+     \/ ~Core /\ \E j \in DOMAIN qc, r \in 1..MaxK :
+          r <= Len(qc[j].res) /\ Delete(qc[j].res[r].id) /\ UNCHANGED fresh
 
 Finish == Len(hist) = MaxOps /\ ~done /\ done' = TRUE /\ UNCHANGED <<canon, hot, qc, hist, fresh>>
 Next == Step \/ Finish
